@@ -1061,3 +1061,87 @@ Proof.
 Qed.
 
 End Outsider.
+
+(* ------------------------------------------------------------------ *)
+(* Part D: the closed cluster *)
+
+Section ClosedRound.
+
+Variables (hb et : N) (c : conf).
+Hypothesis Hlids : ~ In l ids.
+Hypothesis Hhbet : hb < et.
+Hypothesis Hquorum : Quorum.has_quorum (incoming c) (outgoing c) (l :: ids) = true.
+
+Local Notation LInv' := (LInv ids l t hb et c).
+Local Notation LInv_step' := (LInv_step ids l t hb et c Ht0 Hl0 Hhbet Hquorum).
+Local Notation FInv' := (FInv l t hb).
+Local Notation FInv_step' := (FInv_step l t hb Ht0 Hl0).
+Local Notation WInv' := (WInv ids l t hb et c).
+
+(* the leader over a list of inputs *)
+Lemma leader_steps_PC (pend : N -> Prop) : forall ms L L',
+  LInv' pend L -> In (r_vote L) (l :: ids) ->
+  Forall (fun m => okL ids t m /\ PC m) ms -> steps L ms = Ok L' ->
+  Forall PC (r_msgs L) ->
+  r_vote L' = r_vote L /\ Forall PC (r_msgs L').
+Proof.
+  induction ms as [|m rest IH]; intros L L' HI Hv Hok H F; cbn [steps] in H.
+  - injection H as <-. auto.
+  - apply Forall_cons_iff in Hok. destruct Hok as [[Ho Hp] Hr].
+    ib H y Hy. destruct y as [L1 c1]. cbn [fst] in H.
+    pose proof (leader_step_PC _ _ _ _ _ _ _ _ HI Hv Ho Hp Hy F) as F1.
+    destruct (LInv_step' pend _ _ _ _ HI Ho Hy) as (J1 & (K & _) & _).
+    apply keeps_fields in K. destruct K as (_ & K2 & _).
+    destruct (IH _ _ J1 ltac:(rewrite K2; exact Hv) Hr H F1) as [A B].
+    split; [congruence|exact B].
+Qed.
+
+Lemma follower_steps_PC he (hq : Prop) : forall ms F F',
+  FInv' he hq F -> In (r_id F) ids -> In (r_vote F) (l :: ids) ->
+  Forall (fun m => okF l t m /\ PC m) ms -> steps F ms = Ok F' ->
+  Forall PC (r_msgs F) -> Forall PC (r_msgs F').
+Proof.
+  induction ms as [|m rest IH]; intros F F' HI Hid Hv Hok H Fq; cbn [steps] in H.
+  - injection H as <-. exact Fq.
+  - apply Forall_cons_iff in Hok. destruct Hok as [[Ho Hp] Hr].
+    ib H y Hy. destruct y as [F1 c1]. cbn [fst] in H.
+    pose proof (follower_step_PC _ _ _ _ _ _ _ HI Hid Hv Ho Hp Hy Fq) as F1q.
+    destruct (FInv_step' _ _ _ _ _ _ HI Ho Hy) as (J1 & A1 & B1 & _).
+    eapply IH; [exact J1|rewrite A1; exact Hid|rewrite B1; exact Hv|exact Hr|exact H|exact F1q].
+Qed.
+
+(* the heartbeat phase of the leader's tick *)
+Lemma beat_phase_PC r1 hr L2 b :
+  beat_phase r1 hr = Ok (L2, b) -> r_id r1 = l -> r_term r1 = t ->
+  Forall PC (r_msgs r1) -> r_vote L2 = r_vote r1 /\ Forall PC (r_msgs L2).
+Proof.
+  unfold beat_phase. intros H Hi Ht F.
+  destruct (_ <=? _).
+  - rewrite bcast_heartbeat_eq in H. cbn [bind] in H. injection H as <- _.
+    split; [reflexivity|]. cbn. apply Forall_app. split; [exact F|].
+    apply Forall_forall. intros x Hx. apply in_map_iff in Hx. destruct Hx as (id & <- & _).
+    destruct (hb_msg_fields (r1 <| r_heartbeat_elapsed := 0 |>)
+                (ro_last_pending_request_ctx (r_read_only (r1 <| r_heartbeat_elapsed := 0 |>))) id)
+      as (A & B & C0 & D).
+    apply (PC_plain l); [left; reflexivity| | |].
+    + right; left. exact B.
+    + exact (eq_trans C0 Hi).
+    + apply N.eq_le_incl. exact (eq_trans D Ht).
+  - injection H as <- _. auto.
+Qed.
+
+Lemma leader_tick_PC L1 L2 b :
+  LInv' (fun _ => False) L1 -> tick L1 = Ok (L2, b) ->
+  Forall PC (r_msgs L1) -> r_vote L2 = r_vote L1 /\ Forall PC (r_msgs L2).
+Proof.
+  intros HI H F.
+  pose proof HI as (I1 & I2 & I3 & I4 & I5 & I6 & I7 & I8 & I9 & I10 & I11 & I12 & I13 & I14).
+  destruct (N.lt_ge_cases (r_election_elapsed L1 + 1) (r_election_timeout L1)) as [Hno|Hb].
+  - rewrite (leader_heartbeats L1 I1 Hno) in H.
+    apply beat_phase_PC in H; [exact H|exact I3|exact I2|exact F].
+  - assert (Hall : forall id, In id ids -> act L1 id).
+    { destruct I14 as [A|A]; [|lia]. intros id Hid. destruct (A id Hid) as [B|[]]. exact B. }
+    rewrite (checkquorum_stepdown L1 I1 Hb), I5,
+      (all_act_quorum ids l t hb et c Hquorum _ L1 HI Hall) in H.
+    apply beat_phase_PC in H; [exact H|exact I3|exact I2|exact F].
+Qed.
